@@ -76,9 +76,8 @@ theorem filter_zip_aux (g : Nat → Rat) (thr : Rat) (P : (Nat × Ind) → Bool)
 
 /-- with pairwise distinct genomes no kept individual is a duplicate of an earlier one -/
 theorem no_dup (s : List (Nat × Ind)) (hnd : (s.map (·.2.genome)).Nodup) (j : Nat) (hj : j < s.length) :
-    (match s[j]? with
-      | some p => (s.take j).any fun q => q.2.genome == p.2.genome
-      | none => true) = false := by
+    isDupAt s j = false := by
+  unfold isDupAt
   rw [List.getElem?_eq_getElem hj]
   simp only [List.any_eq_false, beq_iff_eq]
   intro q hq heq
@@ -152,15 +151,12 @@ seed list equals the definition -/
 theorem assemble_eq_spec (mx : Bool) (dist : Nat → Nat → Rat) (root : Nat × Ind) (rest : List (Nat × Ind)) (thr : Rat)
     (hs : SortedDesc mx (root :: rest)) (hnd : ((root :: rest).map (·.2.genome)).Nodup) :
     let s := root :: rest
-    let isDup := fun (j : Nat) => match s[j]? with
-      | some p => (s.take j).any fun q => q.2.genome == p.2.genome
-      | none => true
-    let idxs := (List.range (s.length - 1)).map (· + 1) |>.filter fun j => !isDup j
+    let idxs := (List.range (s.length - 1)).map (· + 1) |>.filter fun j => !isDupAt s j
     let ds := idxs.filterMap fun j => nbDist dist s j
     let nodes := idxs.filterMap fun j => s[j]?
     ds.length = idxs.length ∧
     root.2 :: (((nodes.zip ds).filter fun pd => decide (pd.2 > thr)).map (·.1.2)) = spec mx dist s thr := by
-  intro s isDup idxs ds nodes
+  intro s idxs ds nodes
   have hidx : idxs = List.range' 1 rest.length := by
     have h1 : (List.range (s.length - 1)).map (· + 1) = List.range' 1 rest.length := by
       simp only [s, List.length_cons, Nat.add_sub_cancel]
@@ -170,7 +166,7 @@ theorem assemble_eq_spec (mx : Bool) (dist : Nat → Nat → Rat) (root : Nat ×
     intro j hj
     simp only [List.mem_range'_1] at hj
     have := no_dup s hnd j (by simp [s]; omega)
-    simp only [isDup, this, Bool.not_false]
+    simp only [this, Bool.not_false]
   have hg : ∀ j ∈ List.range' 1 rest.length,
       nbDist dist s j = some ((nbDist dist s j).getD 0) := by
     intro j hj
@@ -217,6 +213,8 @@ theorem cluster_eq_spec (mx : Bool) (dist : Nat → Nat → Rat) (pop : List Ind
   split at h
   · cases h
   rename_i hm
+  unfold clusterSorted at h
+  simp only [] at h
   split at h
   · cases h
   rename_i hlen
